@@ -61,6 +61,9 @@ def run_case(case: dict, tcp_base: int, udp_base: int, prefix: str) -> dict:
     from cascade.shm import api as shm_api
     from cascade.shm import client as shm_client
 
+    from .realcluster import free_port_block
+
+    tcp_base = free_port_block(tcp_base, 4)
     ctx = mp.get_context("fork")
     hosts = ["h0", "h1"]
     shm: list[Server] = []
